@@ -10,6 +10,10 @@ def fullBlock : List Ev := [.writeResults, .commitState, .notifyA, .notifyB]
 
 /-- events of the harness' crash child: accept `a` blocks, process `1..k-1`, stop block `k` at point `p` -/
 def crashEvents (a p k : Nat) : List Ev :=
+  if p = 1 then
+    -- consensus stopped inside the index write of block a: nothing of block a happened
+    (List.replicate (a - 1) [Ev.indexUpdate, Ev.enqueue]).flatten ++ (List.replicate (a - 1) fullBlock).flatten
+  else
   (List.replicate a [Ev.indexUpdate, Ev.enqueue]).flatten
   ++ (List.replicate (k - 1) fullBlock).flatten
   ++ fullBlock.take (p - 2)
@@ -32,7 +36,7 @@ def step (st : Option Nat) (ws : List String) : Option Nat × String :=
   | ["crash", a, p, k] =>
     match st, a.toNat?, p.toNat?, k.toNat? with
     | some n, some a, some p, some k =>
-      if k < 1 ∨ k > a ∨ a > n ∨ p < 2 ∨ p > 6 ∨ a - k > 16 then (st, "bad-op") else
+      if k < 1 ∨ k > a ∨ a > n ∨ p < 1 ∨ p > 6 ∨ a - k > 17 ∨ (p = 1 ∧ k ≠ a) then (st, "bad-op") else
       let node := HyperModel.Crash.run Node.init (crashEvents a p k)
       let res := match node.p.res with | some r => toString r | none => "-1"
       (st, s!"idx={node.p.idx} st={node.p.st} res={res} pre={list node.notifiedA} preB={list node.notifiedB} " ++ showOutcome (restart node.p))
